@@ -42,7 +42,7 @@ var worker *wk.Client
 
 func getWorker() *wk.Client {
 	if worker == nil {
-		worker = wk.New(wk.Options{CPULimit: 150 * time.Second}) // generous: the budget only separates "slow on a loaded machine" from "does not terminate"
+		worker = wk.New(wk.Options{CPULimit: 150 * time.Second, RecycleEvery: 12}) // generous: the budget only separates "slow on a loaded machine" from "does not terminate"
 	}
 	return worker
 }
@@ -50,6 +50,11 @@ func getWorker() *wk.Client {
 // judge: key "" = holds; domain != "" = outside the domain / inconclusive.
 func judge(k kase) (r fcResult, key, what, domain string) {
 	o := getWorker().Do("format_check", k)
+	if o.Kind == wk.Exited {
+		// a long-lived worker can die of address-space exhaustion (every wazero run maps
+		// memory): only a death that repeats in a fresh process is attributed to the input
+		o = getWorker().Do("format_check", k)
+	}
 	switch o.Kind {
 	case wk.OK:
 		o.Decode(&r)
@@ -77,7 +82,9 @@ const (
 	keyWzElse       = "wz-printer/trailing-comment-at-else-clause"
 )
 
-var rejectPosRe = regexp.MustCompile(`:(\d+):\d+: `)
+var shortDeclRe = regexp.MustCompile(`^([A-Za-z_\x{80}-\x{10FFFF}][0-9A-Za-z_\x{80}-\x{10FFFF}]*) := (.*)$`)
+
+var rejectPosRe =regexp.MustCompile(`:(\d+):\d+: `)
 
 // refineKey gives "formatted text rejected" failures a structural identity by
 // looking at the printed line the parser stumbled over.
@@ -186,6 +193,12 @@ func scramble(t *rapid.T, src string, wz bool) (string, int) {
 			indent = ""
 		}
 		body := trim
+		// same declaration, other spelling: `x := e` → `var x = e` (.wa only)
+		if !wz {
+			if m := shortDeclRe.FindStringSubmatch(body); m != nil && rapid.IntRange(0, 3).Draw(t, "varForm") == 0 {
+				body = "var " + m[1] + " = " + m[2]
+			}
+		}
 		if mode >= 1 && rapid.IntRange(0, 2).Draw(t, "respace") == 0 {
 			body = respace(t, body)
 		}
